@@ -482,6 +482,10 @@ class C01(Property):
         "Flatland.Flat.Proofs.roundtrip_sparse_second",
         "Flatland.Flat.Proofs.roundtrip_sparse_checked",
         "Flatland.Flat.Proofs.roundtrip_sparse_second_flat_partial",
+        "Flatland.Flat.Proofs.roundtrip_sparse_second_flat_compound_partial",
+        "Flatland.Flat.Proofs.flatten_prS_prS_full",
+        "Flatland.Flat.Proofs.compoundsFull_of_compoundFree",
+        "Flatland.Flat.Proofs.compoundsFull_prS",
         "Flatland.Flat.Proofs.roundtrip_sparse_rebuilt",
         "Flatland.Flat.Proofs.flatten_prS_prS",
         "Flatland.Flat.Proofs.prS_okS",
